@@ -95,6 +95,12 @@ def gen_cases(tier):
             for h in gen_histories([a, b], 4, "quick"):
                 if len(h) == 4:
                     yield {"kind": "history", "cfgs": descs, "history": h}
+    # communities at the length-form boundaries (the community is written by its own buffer routine)
+    for ver in ("v1", "v2c"):
+        for L in (126, 127, 128, 129, 254, 255, 256, 257):
+            cfg = Cfg(ver, community="k" * L)
+            h = [["get", 0, "sys"], ["getbulk", 0, "sys", 1] if ver == "v2c" else ["getnext", 0, "long"], ["get_many", 0, "pair"]]
+            yield {"kind": "history", "cfgs": [cfg.describe()], "history": h}
     # clock chains: two accepted replies with every ordered pair of agent clocks (boots / time up, down, boots up with time
     # down, extremes) - the third request must carry the clock of the second reply
     for cfg in drivers.k7():
